@@ -485,6 +485,21 @@ def check_C05(tier, seed):
                 for j, nk in enumerate([10, 30])]
     l1_gens(v, gens, "C05", stats, scope=c05_scope)
     l1_runs(v, runs, "C05", stats, scope=c05_scope)
+    # a free list that spans more than one page, persisted, reloaded at reopen and persisted again
+    import l1
+    for nk, cycles in ([(64, 5)] if tier == "quick" else [(64, 20), (120, 8)]):
+        tf = os.path.join(scratch(), "C05-bigfree-%d.ndjson" % nk)
+        run = dict(kind="bucketdel", profile="overflow", nkeys=nk, nvals=6, cycles=cycles, extra=["--decode", "1", "--reopen-every", "1"])
+        p = run_jvh(["workload", "--kind", "bucketdel", "--cycles", cycles, "--profile", "overflow", "--nkeys", nk, "--nvals", 6,
+                     "--out", tf, "--decode", "1", "--reopen-every", "1", "--num-pages", "4"], timeout=3000)
+        if p.returncode != 0:
+            v.report({"kind": "hang" if p.returncode == 86 else "abort", "rc": p.returncode, "workload": "bigfree"},
+                     {"run": run, "stderr": p.stderr[-1500:]})
+        st1 = l1.page_trace(v, tf, run, also_kv=False, scope=c05_scope, sync_rule="1")
+        for k in ("events", "states", "writes", "commits"):
+            stats[k] = stats.get(k, 0) + st1.get(k, 0)
+        stats["traces"] = stats.get("traces", 0) + 1
+        os.remove(tf)
     f1 = ("f1", 8, bt.seed_inc(5), 4, ["F1"], {})
     f13 = ("f13", 15, bt.seed_inc(14), 6, ["F13"], dict(kinds=("del",), opkeys=range(9, 15)))
     f6 = ("f6", 15, bt.seed_nested(14, (5, 10)), 4, ["F6"], dict(kinds=("del", "touch"), opkeys=range(9, 15)))
@@ -790,6 +805,8 @@ def check_C10(tier, seed):
                  ("fixed", "two", 24, 50, ["--reader-plan", "o1@4,o8@4,o2@6,o3@8,c8@9,c1@11,c3@12,c2@13,o4@20,o9@20,o5@22,c4@24,c5@25,c9@27",
                                            "--num-pages", "4096"]),
                  ("bucketdel", "overflow", 12, 12, ["--decode", "1"]),
+                 # a free list of more than one page (> 124 ids at 1 KiB pages), reloaded at every reopen
+                 ("bucketdel", "overflow", 64, 6, ["--decode", "1", "--reopen-every", "1"]),
                  ("varsize", "two", 16, 10, ["--decode", "1"])]
     else:
         plans = [("fixed", "two", 64, 700, ["--reopen-every", "101"]),
@@ -803,7 +820,9 @@ def check_C10(tier, seed):
                                             "--num-pages", "65536"]),
                  ("bucketdel", "overflow", 16, 60, ["--decode", "1"]),
                  ("varsize", "two", 24, 40, ["--decode", "1"]),
-                 ("delins", "three", 30, 40, ["--decode", "1"])]
+                 ("delins", "three", 30, 40, ["--decode", "1"]),
+                 ("bucketdel", "overflow", 64, 30, ["--decode", "1", "--reopen-every", "1"]),
+                 ("bucketdel", "overflow", 120, 12, ["--decode", "1", "--reopen-every", "2"])]
     series = []
     for kind, prof, nk, cycles, extra in plans:
         build_harness()
@@ -828,8 +847,24 @@ def check_C10(tier, seed):
         series.append(dict(workload=kind, profile=prof, txs=info.get("txs"), file_bytes=info.get("file_bytes"),
                            high_water_pages_every_10th_commit=nps[::max(1, len(nps) // 12)], extra=extra))
         os.remove(tf)
+    # readers that come and go on other threads while writers commit: the registry must not keep an entry of a reader
+    # that is gone and every release must let go of what nobody can need (Trace_Threads rules owned by C10)
+    import threads
+    v.out_of_scope = lambda sig: sig.get("kind") == "threads" and sig.get("owner") != "C10"
+    thr = dict(schedules=0, runs=0)
+    for (nr, nw, commits, reads, maxpre) in ([(2, 1, 3, 1, 2)] if tier == "quick" else [(2, 1, 4, 1, 3), (2, 2, 2, 1, 2)]):
+        beh, s_, t_ = threads.gen_schedules("gt_C10_%d_%d_%d_%d" % (nr, nw, commits, maxpre), list(range(1, nr + 1)),
+                                            list(range(11, 11 + nw)), commits, reads, grows=[], maxpre=maxpre,
+                                            preempt_at=threads.KEY_POINTS)
+        if tier == "quick" and len(beh) > 3000:
+            beh = beh[::(len(beh) // 3000) + 1]
+        runs, bad, smp = threads.run_schedules(v, "C10", beh, nr, nw, commits, reads, "C10-%d-%d" % (nr, nw),
+                                               random=300 if tier == "quick" else 5000, seed=seed, extra=["--grow", 0])
+        thr["schedules"] += len(beh); thr["runs"] += runs
+        stats["states"] += s_
     cov = dict(states=mc["states"] + stats["states"], transitions=mc["transitions"] + stats["events"],
-               traces_validated_against_impl=stats["runs"], evaluations=stats["txs"], distinct_nontrivial=stats["runs"],
+               traces_validated_against_impl=stats["runs"] + thr["runs"], evaluations=stats["txs"], distinct_nontrivial=stats["runs"],
+               threads=thr,
                rule="MC: PageStore readers+crash configurations: Accounting and FLConsistent in every reachable state (also after "
                     "Reopen / Recover: free and pending are reloaded), Release constrained by MustReleaseOK / ReleaseBoundOK, "
                     "allocation extends only when no free run fits. Binding: long cyclic workloads (fixed-size, variable-size, "
